@@ -135,6 +135,11 @@ func foldNamePred(p *Prog, f *Fn, e ast.Expr, name string) (val bool, ok bool) {
 					return (a == b) == (x.Op == token.EQL), true
 				}
 			}
+		case *ast.Ident:
+			// a named boolean with one definition
+			if d := singleDef(f, x); d != nil {
+				return ev(d)
+			}
 		case *ast.CallExpr:
 			if fn := p.Callee(f.Pkg, x); fn != nil && len(x.Args) == 2 {
 				a, ok1 := str(x.Args[0])
@@ -167,6 +172,56 @@ func mentionsPcapLiteral(e ast.Node) bool {
 	return hit
 }
 
+// singleDef: the one expression a local of f is defined from (nil if it has none or several definitions).
+func singleDef(f *Fn, id *ast.Ident) ast.Expr {
+	info := f.Pkg.TypesInfo
+	o := info.Uses[id]
+	if o == nil {
+		return nil
+	}
+	var defs []ast.Expr
+	ast.Inspect(f.Body(), func(n ast.Node) bool {
+		if as, ok := n.(*ast.AssignStmt); ok {
+			for i, l := range as.Lhs {
+				if identObj(info, l) == o {
+					if len(as.Lhs) == len(as.Rhs) {
+						defs = append(defs, as.Rhs[i])
+					} else {
+						defs = append(defs, nil)
+					}
+				}
+			}
+		}
+		return true
+	})
+	if len(defs) == 1 {
+		return defs[0]
+	}
+	return nil
+}
+
+// mentionsPcapLiteralIn: the condition, or a local with one definition that it uses (named booleans, two levels),
+// mentions a ".pcap" literal.
+func mentionsPcapLiteralIn(f *Fn, cond ast.Expr) bool {
+	if mentionsPcapLiteral(cond) {
+		return true
+	}
+	var visit func(e ast.Node, depth int) bool
+	visit = func(e ast.Node, depth int) bool {
+		hit := false
+		ast.Inspect(e, func(x ast.Node) bool {
+			if id, ok := x.(*ast.Ident); ok && !hit && depth > 0 {
+				if d := singleDef(f, id); d != nil && (mentionsPcapLiteral(d) || visit(d, depth-1)) {
+					hit = true
+				}
+			}
+			return !hit
+		})
+		return hit
+	}
+	return visit(cond, 2)
+}
+
 func ruleCaptureNamesAgree(p *Prog, r *Res, rule string) {
 	r.Rule(rule + ": names accepted by the watcher or the upload route are registered again by builder.New")
 	scanFn := p.Fn("builder.New")
@@ -177,7 +232,7 @@ func ruleCaptureNamesAgree(p *Prog, r *Res, rule string) {
 	// the scan predicate: `if <cond> { continue }` in New with a .pcap literal: registered ⇔ !cond
 	var scanCond ast.Expr
 	inspectShallow(scanFn.Body(), func(x ast.Node) bool {
-		if ifs, ok := x.(*ast.IfStmt); ok && scanCond == nil && mentionsPcapLiteral(ifs.Cond) && len(ifs.Body.List) == 1 {
+		if ifs, ok := x.(*ast.IfStmt); ok && scanCond == nil && mentionsPcapLiteralIn(scanFn, ifs.Cond) && len(ifs.Body.List) == 1 {
 			if bs, ok := ifs.Body.List[0].(*ast.BranchStmt); ok && bs.Tok == token.CONTINUE {
 				scanCond = ifs.Cond
 			}
@@ -205,7 +260,7 @@ func ruleCaptureNamesAgree(p *Prog, r *Res, rule string) {
 		}
 		inspectShallow(f.Body(), func(x ast.Node) bool {
 			ifs, ok := x.(*ast.IfStmt)
-			if !ok || !mentionsPcapLiteral(ifs.Cond) || len(ifs.Body.List) == 0 {
+			if !ok || !mentionsPcapLiteralIn(f, ifs.Cond) || len(ifs.Body.List) == 0 {
 				return true
 			}
 			skips := false
